@@ -14,7 +14,7 @@
 //!   `e na true`) before they are used there.
 
 use crate::util::Rng;
-use std::collections::HashSet;
+use std::collections::{BTreeMap, HashSet};
 
 // ================================================================================================
 // shared text helpers
@@ -645,6 +645,483 @@ pub fn product_programs() -> Vec<(String, String)> {
             }
         }
     }
+    out.extend(temp_programs());
+    out
+}
+
+// ================================================================================================
+// the enumerated product of method calls on computed temporaries
+//
+// receiver (a temporary that owns, or is a copy of, pool / frame storage: popped element, element
+// popped through an index path, call results, concatenation, index read, element of a popped array,
+// chained identity methods; a variable as control)
+//   x method case (every string method, each with its identity cases: trim with nothing to strip,
+//     to_lowercase of lower case, replace without a match, slice of the whole string, split without
+//     a match ...; for array receivers len / join / index and methods of the element)
+//   x holding context (the result is an operand / element / argument / receiver while a sibling
+//     evaluation stores another string OF THE SAME LENGTH, hence of the same pool class; or it is
+//     stored itself and the same-length store follows)
+// is enumerated completely; the kind of the intervening store (callee assigns a global, pushes to
+// a global array, declares a local, assigns an element) and the length (pool class boundaries, the
+// > 256 byte fallback) rotate so that each is complete against every single other dimension.
+
+/// Kind of the value a method call on a temporary yields.
+#[derive(Clone, Copy, PartialEq, Eq)]
+enum RK {
+    S,
+    N,
+    A,
+}
+
+/// A computed (frame temporary) expression whose value is the ASCII string `s` (>= 2 bytes).
+fn cat_of(s: &str) -> String {
+    let h = s.len() - s.len() / 2;
+    format!("\"{}\" add \"{}\"", &s[..h], &s[h..])
+}
+
+/// One method case: the receiver content for which the call is the stated case.
+struct Meth {
+    tag: &'static str,
+    content: String,
+    call: String,
+    kind: RK,
+    /// the result, when it is a string this generator can predict
+    result: Option<String>,
+}
+
+fn str_methods(len: usize) -> Vec<Meth> {
+    let vw = two('v', 'w', len);
+    let up = two('V', 'W', len);
+    let m = |tag: &'static str, content: &str, call: String, kind: RK, result: Option<String>| Meth {
+        tag,
+        content: content.to_string(),
+        call,
+        kind,
+        result,
+    };
+    let digits: String = "123456789".chars().cycle().take(len).collect();
+    let left = format!(" {}", two('v', 'w', len - 1));
+    let both = format!(" {} ", two('v', 'w', len - 2));
+    let comma = format!("{},{}", rep('v', len - 1 - len / 2), rep('w', len / 2));
+    vec![
+        m("len", &vw, ".len()".into(), RK::N, None),
+        m("slice-whole", &vw, format!(".slice(0, {len})"), RK::S, Some(vw.clone())),
+        m("slice-over", &vw, format!(".slice(0, {})", len + 40), RK::S, Some(vw.clone())),
+        m("slice-part", &vw, format!(".slice(1, {len})"), RK::S, Some(vw[1..].to_string())),
+        m("slice-empty", &vw, ".slice(2, 2)".into(), RK::S, Some(String::new())),
+        m("upper", &vw, ".to_uppercase()".into(), RK::S, Some(up.clone())),
+        m("upper-id", &up, ".to_uppercase()".into(), RK::S, Some(up.clone())),
+        m("lower", &up, ".to_lowercase()".into(), RK::S, Some(vw.clone())),
+        m("lower-id", &vw, ".to_lowercase()".into(), RK::S, Some(vw.clone())),
+        m("trim-id", &vw, ".trim()".into(), RK::S, Some(vw.clone())),
+        m("trim-left", &left, ".trim()".into(), RK::S, Some(left.trim().to_string())),
+        m("trim-both", &both, ".trim()".into(), RK::S, Some(both.trim().to_string())),
+        m("trim-all", &rep(' ', len), ".trim()".into(), RK::S, Some(String::new())),
+        m("replace-none", &vw, ".replace(\"#\", \"x\")".into(), RK::S, Some(vw.clone())),
+        m("replace-hit", &vw, ".replace(\"v\", \"x\")".into(), RK::S, Some(vw.replace('v', "x"))),
+        m("replace-same", &vw, ".replace(\"v\", \"v\")".into(), RK::S, Some(vw.clone())),
+        m("replace-empty", &vw, ".replace(\"\", \"\")".into(), RK::S, None),
+        m("find-hit", &vw, ".find(\"w\")".into(), RK::N, None),
+        m("find-miss", &vw, ".find(\"#\")".into(), RK::N, None),
+        m("to-number", &digits, ".to_number()".into(), RK::N, None),
+        m("split-none", &vw, ".split(\"#\")".into(), RK::A, None),
+        m("split-hit", &comma, ".split(\",\")".into(), RK::A, None),
+    ]
+}
+
+/// Method cases on an array receiver whose value is `[two('v','w',len), "k"]`.
+fn arr_methods(len: usize) -> Vec<Meth> {
+    let vw = two('v', 'w', len);
+    let m = |tag: &'static str, call: &str, kind: RK, result: Option<String>| Meth {
+        tag,
+        content: vw.clone(),
+        call: call.to_string(),
+        kind,
+        result,
+    };
+    vec![
+        m("arr-len", ".len()", RK::N, None),
+        m("arr-join", ".join(\"-\")", RK::S, Some(format!("{vw}-k"))),
+        m("arr-join-empty", ".join(\"\")", RK::S, Some(format!("{vw}k"))),
+        m("arr-elem", "[0]", RK::S, Some(vw.clone())),
+        m("arr-elem-literal", "[1]", RK::S, Some("k".into())),
+        m("arr-elem-trim", "[0].trim()", RK::S, Some(vw.clone())),
+        m("arr-elem-upper", "[0].to_uppercase()", RK::S, Some(two('V', 'W', len))),
+        m("arr-elem-len", "[0].len()", RK::N, None),
+    ]
+}
+
+/// A receiver expression and the declarations it needs.
+struct Recv {
+    globals: Vec<String>,
+    fns: Vec<String>,
+    expr: String,
+}
+
+const STR_RECVS: [&str; 11] = [
+    "pop", "pop-index", "call", "call-local", "call-param", "concat", "index", "popped-elem", "var", "chain-trim",
+    "chain-slice",
+];
+
+/// Enough elements for every evaluation of the receiver expression in one program.
+const POP_STOCK: usize = 8;
+
+fn str_recv(tag: &str, content: &str) -> Recv {
+    let x = cat_of(content);
+    let stock = |item: &str| -> String { std::iter::repeat_n(item.to_string(), POP_STOCK).collect::<Vec<_>>().join(", ") };
+    let plain = |expr: String| Recv { globals: vec![], fns: vec![], expr };
+    let pa = format!("make pa get [\"k\", {}]", stock(&x));
+    match tag {
+        "pop" => Recv { globals: vec![pa], fns: vec![], expr: "pa.pop()".into() },
+        "pop-index" => Recv {
+            globals: vec![format!("make pb get [[\"k\", {}], [\"m\"]]", stock(&x))],
+            fns: vec![],
+            expr: "pb[0].pop()".into(),
+        },
+        "call" => Recv { globals: vec![], fns: vec![format!("do mk() start\nreturn {x}\nend")], expr: "mk()".into() },
+        "call-local" => Recv {
+            globals: vec![],
+            fns: vec![format!("do mkl() start\nmake l get {x}\nreturn l\nend")],
+            expr: "mkl()".into(),
+        },
+        "call-param" => {
+            Recv { globals: vec![], fns: vec!["do idp(p) start\nreturn p\nend".into()], expr: format!("idp({x})") }
+        }
+        "concat" => plain(format!("({x})")),
+        "index" => Recv { globals: vec![format!("make ia get [{x}, \"k\"]")], fns: vec![], expr: "ia[0]".into() },
+        "popped-elem" => Recv {
+            globals: vec![format!("make pn get [[\"k\"], {}]", stock(&format!("[{x}, \"k\"]")))],
+            fns: vec![],
+            expr: "pn.pop()[0]".into(),
+        },
+        "var" => Recv { globals: vec![format!("make sv get {x}")], fns: vec![], expr: "sv".into() },
+        "chain-trim" => Recv { globals: vec![pa], fns: vec![], expr: "pa.pop().trim()".into() },
+        "chain-slice" => {
+            Recv { globals: vec![pa], fns: vec![], expr: format!("pa.pop().slice(0, {})", content.len()) }
+        }
+        _ => unreachable!(),
+    }
+}
+
+const ARR_RECVS: [&str; 7] = ["arr-pop", "arr-call", "arr-call-param", "arr-literal", "arr-split", "arr-index", "arr-var"];
+
+fn arr_recv(tag: &str, content: &str) -> Recv {
+    let x = cat_of(content);
+    let item = format!("[{x}, \"k\"]");
+    let stock: String = std::iter::repeat_n(item.clone(), POP_STOCK).collect::<Vec<_>>().join(", ");
+    match tag {
+        "arr-pop" => {
+            Recv { globals: vec![format!("make pn get [[\"k\"], {stock}]")], fns: vec![], expr: "pn.pop()".into() }
+        }
+        "arr-call" => {
+            Recv { globals: vec![], fns: vec![format!("do mka() start\nreturn {item}\nend")], expr: "mka()".into() }
+        }
+        "arr-call-param" => {
+            Recv { globals: vec![], fns: vec!["do ida(p) start\nreturn p\nend".into()], expr: format!("ida({item})") }
+        }
+        "arr-literal" => Recv { globals: vec![], fns: vec![], expr: item },
+        "arr-split" => {
+            Recv { globals: vec![], fns: vec![], expr: format!("({}).split(\",\")", cat_of(&format!("{content},k"))) }
+        }
+        "arr-index" => {
+            Recv { globals: vec![format!("make pm get [[\"k\"], {item}]")], fns: vec![], expr: "pm[1]".into() }
+        }
+        "arr-var" => Recv { globals: vec![format!("make av get {item}")], fns: vec![], expr: "av".into() },
+        _ => unreachable!(),
+    }
+}
+
+const STORERS: [&str; 4] = ["callee-assign", "callee-push", "callee-local", "callee-index-assign"];
+
+/// `st(tag, r)`: stores a fresh string of the length of `tag` and returns `r`.
+fn storer(tag: &str) -> (Vec<String>, String, Vec<String>) {
+    let (globals, store, tail): (Vec<String>, &str, Vec<String>) = match tag {
+        "callee-assign" => (vec!["make last get \"none\"".into()], "last get tag add \"\"", vec!["shout(last)".into()]),
+        "callee-push" => (vec!["make bag get [\"k\"]".into()], "bag.push(tag add \"\")", vec!["shout(bag)".into()]),
+        "callee-local" => (vec![], "make l get tag add \"\"", vec![]),
+        "callee-index-assign" => (
+            vec!["make bag get [\"k\" add \"k\", \"m\"]".into()],
+            "bag[0] get tag add \"\"",
+            vec!["shout(bag)".into()],
+        ),
+        _ => unreachable!(),
+    };
+    (globals, format!("do st(tag, r) start\n{store}\nreturn r\nend"), tail)
+}
+
+const HOLDS: [&str; 12] = [
+    "add-call",
+    "literal-with-call",
+    "literal-inline",
+    "args-with-call",
+    "args-inline",
+    "compare-call",
+    "method-arg",
+    "receiver-of-call-arg",
+    "make-then-store",
+    "push-then-store",
+    "return-then-call",
+    "loop-add-call",
+];
+
+const TEMP_LENS: [usize; 7] = [5, 5, 8, 9, 129, 5, 257];
+
+/// One program: the value of `e` (kind `kind`) is held / stored by context `hold` while a string of
+/// `slen` bytes is stored. Returns (body, helper functions).
+fn hold_program(hold: &str, e: &str, kind: RK, result: Option<&str>, slen: usize) -> Option<(Vec<String>, Vec<String>)> {
+    let z = q(&rep('z', slen));
+    let y = q(&rep('y', slen));
+    // a sibling evaluation that stores `slen` bytes and yields a string / the number 1
+    let st = format!("st({z}, \"!\")");
+    let st2 = format!("st({y}, \"?\")");
+    let stn = format!("st({z}, 1)");
+    let fresh = cat('n', 'm', slen);
+    let mut fns = Vec::new();
+    let body = match hold {
+        "add-call" => match kind {
+            RK::S => vec![format!("shout({e} add {st})")],
+            RK::N => vec![format!("shout({e} add {stn})")],
+            RK::A => vec![format!("shout({e}.join({st}))")],
+        },
+        "literal-with-call" => vec![format!("make y get [{e}, {st}, {e}, {st2}]"), "shout(y)".into()],
+        "literal-inline" => vec![format!("make y get [{e}, {e}, {fresh}, {e}]"), "shout(y)".into()],
+        "args-with-call" => {
+            fns.push("do three(a, b, c) start\nshout(a)\nshout(b)\nshout(c)\nend".into());
+            vec![format!("three({e}, {st}, {e})")]
+        }
+        "args-inline" => {
+            fns.push("do three(a, b, c) start\nshout(a)\nshout(b)\nshout(c)\nend".into());
+            vec![format!("three({e}, {e}, {fresh})")]
+        }
+        "compare-call" => match (kind, result) {
+            (RK::S, Some(r)) => vec![format!("shout({e} na st({z}, {}))", q(r))],
+            (RK::S, None) => vec![format!("shout({e} na {st})")],
+            (RK::N, _) => vec![format!("shout({e} na {stn})")],
+            (RK::A, _) => return None,
+        },
+        "method-arg" => match kind {
+            RK::S => vec![format!("shout(\"<{}>\".replace({e}, {st}))", result.unwrap_or("v"))],
+            RK::N => vec![format!("shout(\"abcdefgh\".slice({e}, 3 add {stn}))")],
+            RK::A => return None,
+        },
+        "receiver-of-call-arg" => match kind {
+            RK::S => vec![format!("shout({e}.replace({st}, \"x\"))"), format!("shout({e}.find({st2}))")],
+            RK::N => return None,
+            RK::A => vec![format!("shout({e}.join({st}).len())")],
+        },
+        "make-then-store" => {
+            vec![format!("make y get {e}"), format!("make z get {fresh}"), "shout(y)".into(), "shout(z)".into()]
+        }
+        "push-then-store" => vec![
+            "make h get [\"k\"]".into(),
+            format!("h.push({e})"),
+            format!("h[0] get {fresh}"),
+            format!("h.push({e})"),
+            "shout(h)".into(),
+        ],
+        "return-then-call" => {
+            fns.push(format!("do r() start\nreturn {e}\nend"));
+            match kind {
+                RK::S => vec![format!("shout(r() add {st})"), format!("shout([r(), {st2}])")],
+                RK::N => vec![format!("shout(r() add {stn})")],
+                RK::A => vec![format!("shout(r().join({st}))")],
+            }
+        }
+        "loop-add-call" => {
+            let inner = match kind {
+                RK::S => format!("x get {e} add {st}"),
+                RK::N => format!("x get \"\" add {e} add {st}"),
+                RK::A => format!("x get {e}.join({st})"),
+            };
+            vec![
+                format!("make x get {fresh}"),
+                "make i get 0".into(),
+                "jasi (i small pass 2) start".into(),
+                "i get i add 1".into(),
+                inner,
+                "shout(x)".into(),
+                "end".into(),
+            ]
+        }
+        _ => return None,
+    };
+    Some((body, fns))
+}
+
+fn temp_family(out: &mut Vec<(String, String)>, seen: &mut HashSet<String>, arrays: bool) {
+    let recvs: &[&str] = if arrays { &ARR_RECVS } else { &STR_RECVS };
+    for (ri, rtag) in recvs.iter().enumerate() {
+        let n_meth = if arrays { arr_methods(DEFAULT_LEN).len() } else { str_methods(DEFAULT_LEN).len() };
+        for mi in 0..n_meth {
+            for (hi, hold) in HOLDS.iter().enumerate() {
+                let len = TEMP_LENS[(ri + 2 * mi + 3 * hi) % TEMP_LENS.len()];
+                let stag = STORERS[(ri + mi + hi) % STORERS.len()];
+                let meth = if arrays { arr_methods(len) } else { str_methods(len) }.into_iter().nth(mi).unwrap();
+                let recv = if arrays { arr_recv(rtag, &meth.content) } else { str_recv(rtag, &meth.content) };
+                let e = format!("{}{}", recv.expr, meth.call);
+                let Some((body, hfns)) = hold_program(hold, &e, meth.kind, meth.result.as_deref(), meth.content.len())
+                else {
+                    continue;
+                };
+                // a context without a sibling call has no storer
+                let calls_storer = body.iter().any(|l| l.contains("st(\""));
+                let stag = if calls_storer { stag } else { "none" };
+                let mut lines = recv.globals.clone();
+                let mut tail = Vec::new();
+                if calls_storer {
+                    let (sglobals, sfn, stail) = storer(stag);
+                    lines.extend(sglobals);
+                    lines.push(sfn);
+                    tail = stail;
+                }
+                lines.extend(recv.fns.clone());
+                lines.extend(hfns);
+                lines.extend(body);
+                lines.extend(tail);
+                lines.push("shout(\"done\")".into());
+                let text = lines.join("\n");
+                if !seen.insert(text.clone()) {
+                    continue;
+                }
+                out.push((format!("recv={rtag} meth={} hold={hold} storer={stag} len={len}", meth.tag), text));
+            }
+        }
+    }
+}
+
+// ------------------------------------------------------------------------------------------------
+// command builder calls: builder method x source of the string argument x region that is reclaimed
+// after the call, complete; the observation rotates. The command lives in a global: whatever the
+// builder keeps has to survive the frame reset of the region. What a command keeps (arguments,
+// environment, working directory, stdin text) is not part of its printed form, so two of the three
+// observations RUN it: a `/bin/sh` child reports its directory, two environment variables, its
+// arguments and its stdin. (The trace stream leaves programs that run a process out; the third
+// observation keeps the family in it.)
+
+/// (tag, builder call with `@` for the argument, the text the argument evaluates to)
+const CMD_CALLS: [(&str, &str, &str); 6] = [
+    ("arg", "c.arg(@)", "aaaabbbb"),
+    ("env-key", "c.env(@, \"val\")", "KKKKEEEE"),
+    ("env-value", "c.env(\"KEY\", @)", "vvvvwwww"),
+    ("cwd", "c.cwd(@)", "/usr/bin"),
+    ("stdin-text", "c.stdin_text(@)", "iiiijjjj"),
+    ("program", "c get command(@)", "/bin/sh"),
+];
+const CMD_ARGS: [&str; 6] = ["concat", "var", "param", "method", "interp", "pop-method"];
+const CMD_REGIONS: [&str; 5] = ["fn-call", "loop", "loop-in-call", "block", "call-in-loop"];
+const CMD_OBS: [&str; 3] = ["run", "copy-run", "shout"];
+const CMD_SCRIPT: &str = "pwd; echo k=$KKKKEEEE v=$KEY a=$1 b=$2; cat";
+
+fn cmd_family(out: &mut Vec<(String, String)>) {
+    let setup = |lines: &mut Vec<String>| {
+        lines.push("c.arg(\"-c\")".into());
+        lines.push(format!("c.arg(\"{CMD_SCRIPT}\")"));
+        lines.push("c.arg(\"sh\")".into());
+        lines.push("c.stdout_capture()".into());
+        // never the inherited stdin: in the harness worker that is the request pipe
+        lines.push("c.stdin_null()".into());
+    };
+    for (ci, (ctag, call, content)) in CMD_CALLS.iter().enumerate() {
+        let len = content.len();
+        let x = cat_of(content);
+        for (ai, atag) in CMD_ARGS.iter().enumerate() {
+            for (gi, region) in CMD_REGIONS.iter().enumerate() {
+                let obs = CMD_OBS[(ci + ai + gi) % CMD_OBS.len()];
+                let mut lines = vec!["make c get command(\"/bin/sh\")".to_string(), "make e get \"\"".into()];
+                if *ctag != "program" {
+                    setup(&mut lines);
+                }
+                // the argument expression as written inside the region; `p` is the region's parameter
+                let (arg, actual) = match *atag {
+                    "concat" => (x.clone(), q("-")),
+                    "var" => {
+                        lines.push(format!("make sv get {x}"));
+                        ("sv".to_string(), q("-"))
+                    }
+                    "param" => ("p".to_string(), x.clone()),
+                    "method" => (format!("\" {content} \".trim()"), q("-")),
+                    "interp" => (format!("\"{{e}}{content}\""), q("-")),
+                    _ => {
+                        let stock: Vec<String> = std::iter::repeat_n(x.clone(), 4).collect();
+                        lines.push(format!("make pa get [\"k\", {}]", stock.join(", ")));
+                        ("pa.pop().trim()".to_string(), q("-"))
+                    }
+                };
+                let mut inner = vec![call.replace('@', &arg)];
+                inner.extend(churn_a(len));
+                let looped = |body: &[String], counter: &str| -> Vec<String> {
+                    let mut v = vec![
+                        format!("make {counter} get 0"),
+                        format!("jasi ({counter} small pass 2) start"),
+                        format!("{counter} get {counter} add 1"),
+                    ];
+                    v.extend(body.iter().cloned());
+                    v.push("end".into());
+                    v
+                };
+                let mut body: Vec<String> = Vec::new();
+                match *region {
+                    "fn-call" => {
+                        lines.push(format!("do cfg(p) start\n{}\nend", inner.join("\n")));
+                        body.push(format!("cfg({actual})"));
+                    }
+                    "loop" => {
+                        lines.push(format!("make p get {actual}"));
+                        body.extend(looped(&inner, "i"));
+                    }
+                    "loop-in-call" => {
+                        lines.push(format!("do cfg(p) start\n{}\nend", looped(&inner, "j").join("\n")));
+                        body.push(format!("cfg({actual})"));
+                    }
+                    "block" => {
+                        lines.push(format!("make p get {actual}"));
+                        body.push("start".into());
+                        body.extend(inner.iter().cloned());
+                        body.push("end".into());
+                    }
+                    _ => {
+                        lines.push(format!("do cfg(p) start\n{}\nend", inner.join("\n")));
+                        body.extend(looped(&[format!("cfg({actual})"), format!("make z get {}", cat('n', 'm', len))], "i"));
+                    }
+                }
+                body.extend(churn_b(len));
+                if *ctag == "program" {
+                    // the region made a new command: it gets its arguments now
+                    setup(&mut body);
+                }
+                match obs {
+                    "run" => {
+                        body.push("make r get c.run()".into());
+                        body.push("shout(r.success())".into());
+                        body.push("shout(r.stdout())".into());
+                    }
+                    "copy-run" => {
+                        body.push("make d get c".into());
+                        body.extend(churn_a(len));
+                        body.push("make r get d.run()".into());
+                        body.push("shout(r.stdout())".into());
+                        body.push("shout([c, d])".into());
+                    }
+                    _ => {
+                        body.push("shout(c)".into());
+                        body.push("make d get c".into());
+                        body.push("shout(to_string(d) add \"!\")".into());
+                    }
+                }
+                lines.extend(body);
+                out.push((format!("cmd={ctag} arg={atag} region={region} cmdobs={obs}"), lines.join("\n")));
+            }
+        }
+    }
+}
+
+/// The enumerated products of method calls on temporaries and of command builder calls: (tag, source).
+pub fn temp_programs() -> Vec<(String, String)> {
+    let mut out = Vec::new();
+    let mut seen = HashSet::new();
+    temp_family(&mut out, &mut seen, false);
+    temp_family(&mut out, &mut seen, true);
+    cmd_family(&mut out);
     out
 }
 
@@ -766,7 +1243,15 @@ struct Gen {
     /// a deliberate runtime error may still be planted
     risky: bool,
     next_counter: usize,
+    /// indices (into `funcs`) of the fixed helper functions that store their argument
+    storers: Vec<usize>,
+    /// how often each of the temporary-receiver shapes was emitted
+    shapes: BTreeMap<&'static str, u64>,
 }
+
+/// Lengths of the computed strings that are pushed, popped and stored by the temporary-receiver
+/// shapes: mostly the first pool class, some of the next ones.
+const POOL_LENS: [usize; 16] = [1, 2, 3, 4, 4, 5, 5, 6, 7, 8, 8, 9, 12, 16, 17, 24];
 
 const BOUNDARY_LENS: [usize; 9] = [7, 8, 9, 16, 17, 128, 129, 256, 257];
 const WORDS: [&str; 12] = ["ab", "naija", "x", "wahala", "go", "chop", "  pad  ", "a,b,c", "Oya", "k-9", "zz", "e"];
@@ -788,7 +1273,13 @@ impl Gen {
             unicode: false,
             risky: false,
             next_counter: 0,
+            storers: Vec::new(),
+            shapes: BTreeMap::new(),
         }
+    }
+
+    fn shape(&mut self, what: &'static str) {
+        *self.shapes.entry(what).or_insert(0) += 1;
     }
 
     fn emit(&mut self, s: String) {
@@ -1013,8 +1504,227 @@ impl Gen {
         ex(s, true, b)
     }
 
+    // ------------------------------------------------------------------ computed temporaries
+    //
+    // Receivers that are not variables or literals: a string moved out of an array by `pop()` (the
+    // only temporary that OWNS a pool slot), the element of a popped array, call results (staged /
+    // relocated strings), concatenations, and identity methods chained on those. An expression
+    // generator may emit a statement: it lands in front of the statement the expression belongs to
+    // (every statement generator emits its line after its expressions are generated), in the same
+    // block, so it runs exactly when the expression does.
+
+    fn pool_len(&mut self) -> usize {
+        if self.boundary && self.rng.chance(1, 3) { *self.rng.pick(&BOUNDARY_LENS) } else { *self.rng.pick(&POOL_LENS) }
+    }
+
+    /// Exactly `len` bytes of text; sometimes padded, upper case or digits so that the trimming, case
+    /// and number methods have both their identity and their changing case.
+    fn text_of(&mut self, len: usize) -> String {
+        let c = *self.rng.pick(&['a', 'b', 'e', 'm', 'z', 'k']);
+        let mut s = rep(c, len);
+        match self.rng.below(8) {
+            0 if len >= 2 => s.replace_range(0..1, " "),
+            1 if len >= 3 => {
+                s.replace_range(0..1, " ");
+                s.replace_range(len - 1..len, " ");
+            }
+            2 => s = s.to_uppercase(),
+            3 if len <= 12 => s = "1234567890123"[..len].to_string(),
+            4 if len >= 3 => s.replace_range(1..2, ","),
+            _ => {}
+        }
+        s
+    }
+
+    /// A concatenation (a frame temporary when evaluated) of exactly `len` bytes.
+    fn computed(&mut self, len: usize) -> String {
+        let s = self.text_of(len);
+        let h = self.rng.below(len as u64 + 1) as usize;
+        format!("\"{}\" add \"{}\"", &s[..h], &s[h..])
+    }
+
+    /// A literal of exactly `len` bytes.
+    fn literal_of(&mut self, len: usize) -> String {
+        let c = *self.rng.pick(&['q', 'r', 'y', 'z']);
+        format!("\"{}\"", rep(c, len))
+    }
+
+    /// `a.pop()` of an array that has just been given a computed element of `len` bytes: the popped
+    /// string owns its pool slot.
+    fn pop_temp(&mut self) -> Option<(Ex, usize)> {
+        let a = self.pick_target(Ty::ArrS)?;
+        let len = self.pool_len();
+        let x = self.computed(len);
+        self.emit(format!("{}.push({x})", a.name));
+        self.shape("recv_pop");
+        // a call evaluated earlier in the same statement may have pushed something else
+        Some((ex(format!("{}.pop()", a.name), false, STR_CAP), len))
+    }
+
+    /// `m.pop()` of a nested array that has just been given `[<computed>, <literal>]`.
+    fn pop_array_temp(&mut self) -> Option<(Ex, usize)> {
+        let m = self.pick_target(Ty::ArrA)?;
+        let len = self.pool_len();
+        let x = self.computed(len);
+        let k = self.literal_of(1 + len % 3);
+        self.emit(format!("{}.push([{x}, {k}])", m.name));
+        self.shape("recv_array_pop");
+        Some((ex(format!("{}.pop()", m.name), false, ARRS_CAP), len))
+    }
+
+    /// A call of one of the storing helpers (or of any string function) with a literal of `len` bytes.
+    fn storer_call(&mut self, len: usize, depth: u32) -> Ex {
+        if !self.storers.is_empty() {
+            let fi = *self.rng.pick(&self.storers.clone());
+            // inside a helper itself (never: helpers are fixed text) or before its definition: not callable
+            if fi < self.cur_fn.unwrap_or(self.funcs.len()) {
+                let arg = self.literal_of(len);
+                self.shape("storer_call");
+                return ex(format!("{}({arg})", self.funcs[fi].name), false, STR_CAP);
+            }
+        }
+        match self.pick_callable(Ty::Str) {
+            Some(fi) => {
+                self.shape("storer_other_call");
+                ex(self.call(fi, depth + 1), false, STR_CAP)
+            }
+            None => self.interpolation(),
+        }
+    }
+
+    /// A string-valued computed temporary and, when known, its length.
+    fn temp_recv(&mut self, depth: u32) -> (Ex, Option<usize>) {
+        for _ in 0..3 {
+            match self.rng.below(11) {
+                0..=4 => {
+                    if let Some((e, len)) = self.pop_temp() {
+                        return (e, Some(len));
+                    }
+                }
+                5 => {
+                    if let Some((e, len)) = self.pop_array_temp() {
+                        self.shape("recv_popped_array_elem");
+                        return (ex(format!("{}[0]", e.t), false, STR_CAP), Some(len));
+                    }
+                }
+                6 | 7 => {
+                    if let Some(fi) = self.pick_callable(Ty::Str) {
+                        self.shape("recv_call");
+                        return (ex(self.call(fi, depth + 1), false, STR_CAP), None);
+                    }
+                }
+                8 => {
+                    let len = self.pool_len();
+                    let x = self.computed(len);
+                    self.shape("recv_concat");
+                    return (ex(format!("({x})"), true, len), Some(len));
+                }
+                _ => {
+                    if depth < 3 {
+                        // chained: an identity-biased method of another temporary
+                        let (r, len) = self.temp_recv(depth + 1);
+                        self.shape("recv_chained");
+                        return (self.str_method_on(&r, len), len);
+                    }
+                }
+            }
+        }
+        let len = self.pool_len();
+        let x = self.computed(len);
+        self.shape("recv_concat");
+        (ex(format!("({x})"), true, len), Some(len))
+    }
+
+    /// A string-valued method call on receiver `r`; the cases that leave the text as it is (nothing to
+    /// trim, already lower case, no match, the whole string) are the common ones.
+    fn str_method_on(&mut self, r: &Ex, len: Option<usize>) -> Ex {
+        let whole = len.unwrap_or(999);
+        let (call, b, what): (String, usize, &'static str) = match self.rng.below(16) {
+            0..=3 => (".trim()".into(), r.b, "temp_trim"),
+            4 | 5 => (".to_lowercase()".into(), 3 * r.b, "temp_to_lowercase"),
+            6 => (".to_uppercase()".into(), 3 * r.b, "temp_to_uppercase"),
+            7 | 8 => (format!(".slice(0, {whole})"), r.b, "temp_slice_whole"),
+            9 => {
+                let a = self.rng.range(-3, 4);
+                let b = self.rng.range(-2, 12);
+                (format!(".slice({}, {})", num_lit(a), num_lit(b)), r.b, "temp_slice")
+            }
+            10 | 11 => (".replace(\"#\", \"x\")".into(), r.b, "temp_replace_no_match"),
+            12 => {
+                let old = self.short_needle();
+                let new = self.short_needle();
+                (format!(".replace({}, {})", old.t, new.t), r.b + (r.b + 1) * new.b, "temp_replace")
+            }
+            13 => (".replace(\"\", \"\")".into(), r.b, "temp_replace_empty"),
+            14 => (".split(\"#\").join(\"\")".into(), r.b, "temp_split_no_match"),
+            _ => {
+                let pat = self.short_needle();
+                (format!(".split({}).join(\"+\")", pat.t), 2 * r.b + 1, "temp_split")
+            }
+        };
+        self.shape(what);
+        fit(ex(format!("{}{call}", r.t), r.p, b), TEMP_LIMIT)
+    }
+
+    /// The result of a string method of a computed temporary, held by an enclosing evaluation while a
+    /// sibling stores a string of the same length (hence of the same pool class).
+    fn held_temp(&mut self, depth: u32) -> Ex {
+        let (r, len) = self.temp_recv(depth);
+        let r = fit(r, STR_CAP);
+        let e = self.str_method_on(&r, len);
+        let slen = len.unwrap_or_else(|| self.pool_len());
+        match self.rng.below(10) {
+            0..=3 => {
+                let st = self.storer_call(slen, depth);
+                self.shape("held_add_call");
+                ex(format!("({} add {})", e.t, st.t), true, e.b + st.b)
+            }
+            4 => {
+                let st = self.storer_call(slen, depth);
+                self.shape("held_call_add");
+                ex(format!("({} add {})", st.t, e.t), true, e.b + st.b)
+            }
+            5 => {
+                // the result is itself the receiver of a method whose argument stores
+                let st = self.storer_call(slen, depth);
+                self.shape("held_receiver_of_call_arg");
+                let e = fit(e, STR_CAP);
+                ex(format!("{}.replace({}, \"x\")", e.t, st.t), e.p, e.b + (e.b + 1))
+            }
+            6 => {
+                // ... or an argument of a method, evaluated before the next argument stores
+                let st = self.storer_call(slen, depth);
+                self.shape("held_method_arg");
+                let host = self.literal_of(slen);
+                ex(format!("{host}.replace({}, {})", e.t, fit(st, 64).t), true, slen + (slen + 1) * 64)
+            }
+            7 => {
+                // several such elements in one literal, joined
+                let (r2, len2) = self.temp_recv(depth + 1);
+                let e2 = self.str_method_on(&fit(r2, STR_CAP), len2);
+                let fresh = self.computed(slen);
+                self.shape("held_literal_elements");
+                ex(format!("[{}, {}, {fresh}].join(\"/\")", e.t, e2.t), true, e.b + e2.b + slen + 2)
+            }
+            8 => {
+                // the receiver is released, then the same length is stored and the result is used
+                self.shape("held_plain");
+                e
+            }
+            _ => {
+                let st = self.storer_call(slen, depth);
+                self.shape("held_literal_with_call");
+                ex(format!("[{}, {}].join(\"/\")", e.t, st.t), true, e.b + st.b + 1)
+            }
+        }
+    }
+
     /// A string-valued receiver: something a method can be called on directly.
     fn str_atom(&mut self, depth: u32) -> Ex {
+        if depth < 3 && self.rng.chance(1, 12) {
+            let (r, _) = self.temp_recv(depth);
+            return fit(r, STR_CAP);
+        }
         if let Some(v) = self.pick_var(Ty::Str)
             && self.rng.chance(3, 4)
         {
@@ -1040,6 +1750,18 @@ impl Gen {
 
     fn str_expr_raw(&mut self, depth: u32) -> Ex {
         let deep = depth >= 3;
+        // the temporary-receiver shapes: a small share of all string expressions
+        if !deep && self.rng.chance(1, 24) {
+            if self.rng.chance(4, 5) {
+                return self.held_temp(depth);
+            }
+            // an array popped from an array (or returned by a call), joined while the separator stores
+            let a = self.arrs_temp(depth);
+            let len = self.pool_len();
+            let sep = fit(self.storer_call(len, depth), 8);
+            self.shape("held_array_join_call");
+            return ex(format!("{}.join({})", a.t, sep.t), a.p, a.b + (a.b / 4 + 1) * sep.b);
+        }
         let pick = if deep { self.rng.below(3) } else { self.rng.below(22) };
         match pick {
             0 => self.lit_str(),
@@ -1219,10 +1941,19 @@ impl Gen {
                 Some(fi) => (self.call(fi, depth), false),
                 None => ("false".into(), true),
             },
-            _ => {
+            11 if self.rng.chance(3, 4) => {
                 let a = self.arrs_atom(depth);
                 let n = self.rng.range(0, 3);
                 (format!("({}.len() pass {n})", a.t), true)
+            }
+            _ => {
+                // a method result of a temporary compared while the other operand stores
+                let (r, len) = self.temp_recv(depth + 1);
+                let e = self.str_method_on(&fit(r, STR_CAP), len);
+                let slen = len.unwrap_or_else(|| self.pool_len());
+                let st = self.storer_call(slen, depth);
+                self.shape("held_compare_call");
+                (format!("({} na {})", e.t, st.t), true)
             }
         };
         ex(t, p, 5)
@@ -1243,12 +1974,33 @@ impl Gen {
 
     /// An array-of-strings receiver.
     fn arrs_atom(&mut self, depth: u32) -> Ex {
+        if depth < 3 && self.rng.chance(1, 12) {
+            return self.arrs_temp(depth);
+        }
         if let Some(v) = self.pick_var(Ty::ArrS)
             && self.rng.chance(3, 4)
         {
             return ex(v.name, v.precise, v.cur);
         }
         self.arrs_lit(depth.max(2), 0)
+    }
+
+    /// An array-of-strings temporary: popped from a nested array, returned by a call, or a literal.
+    fn arrs_temp(&mut self, depth: u32) -> Ex {
+        match self.rng.below(3) {
+            0 | 1 => {
+                if let Some((e, _)) = self.pop_array_temp() {
+                    return e;
+                }
+            }
+            _ => {
+                if let Some(fi) = self.pick_callable(Ty::ArrS) {
+                    self.shape("recv_array_call");
+                    return ex(self.call(fi, depth + 1), false, ARRS_CAP);
+                }
+            }
+        }
+        self.arrs_lit(depth.max(2), 1)
     }
 
     fn arra_atom(&mut self, depth: u32) -> Ex {
@@ -1594,6 +2346,88 @@ impl Gen {
         }
     }
 
+    /// The method result of a temporary is stored / printed / passed directly, and a string of the same
+    /// length is stored right after it.
+    fn stmt_held(&mut self) {
+        let (r, len) = self.temp_recv(0);
+        let e = fit(self.str_method_on(&fit(r, STR_CAP), len), STR_CAP);
+        let slen = len.unwrap_or_else(|| self.pool_len());
+        match self.rng.below(7) {
+            0 => {
+                let name = (*self.rng.pick(Ty::Str.names())).to_string();
+                self.emit(format!("make {name} get {}", e.t));
+                self.declare(&name, Ty::Str, e.p, e.b);
+                self.shape("store_make");
+            }
+            1 | 2 => match self.pick_target(Ty::Str) {
+                Some(v) => {
+                    self.emit(format!("{} get {}", v.name, e.t));
+                    self.set_cur(&v.name, e.b);
+                    self.shape("store_assign");
+                }
+                None => self.emit(format!("shout({})", e.t)),
+            },
+            3 => match self.pick_target(Ty::ArrS) {
+                Some(a) => {
+                    self.guarded(&[format!("{}.len() small pass {ARRS_MAX_PUSH_LEN}", a.name)], &[format!("{}.push({})", a.name, e.t)]);
+                    self.set_cur(&a.name, ARRS_CAP);
+                    self.shape("store_push");
+                }
+                None => self.emit(format!("shout({})", e.t)),
+            },
+            4 => match self.pick_target(Ty::ArrS) {
+                Some(a) => {
+                    self.guarded(&[format!("{}.len() pass 0", a.name)], &[format!("{}[0] get {}", a.name, e.t)]);
+                    self.set_cur(&a.name, ARRS_CAP);
+                    self.shape("store_index_assign");
+                }
+                None => self.emit(format!("shout({})", e.t)),
+            },
+            5 => {
+                // several such elements and a fresh string of the same length in one literal
+                let (r2, len2) = self.temp_recv(1);
+                let e2 = fit(self.str_method_on(&fit(r2, STR_CAP), len2), STR_CAP);
+                let fresh = self.computed(slen);
+                self.emit(format!("shout([{}, {}, {fresh}])", e.t, e2.t));
+                self.shape("store_literal_elements");
+            }
+            _ => {
+                // an argument list: the next argument stores
+                let st = self.storer_call(slen, 0);
+                match self.pick_callable(Ty::Str) {
+                    Some(fi) if self.funcs[fi].params.iter().filter(|(n, t)| *t == Ty::Str && n != "d").count() >= 1 => {
+                        let f = self.funcs[fi].clone();
+                        let mut args = Vec::new();
+                        let mut first = true;
+                        for (name, ty) in &f.params {
+                            if name == "d" {
+                                args.push(self.rng.range(0, 3).to_string());
+                            } else if *ty == Ty::Str && first {
+                                first = false;
+                                args.push(e.t.clone());
+                            } else if *ty == Ty::Str {
+                                args.push(fit(st.clone(), STR_CAP).t);
+                            } else {
+                                args.push(self.arg(*ty, 1));
+                            }
+                        }
+                        self.emit(format!("shout({}({}) add {})", f.name, args.join(", "), st.t));
+                        self.shape("store_argument");
+                    }
+                    _ => {
+                        self.emit(format!("shout({} add {})", e.t, st.t));
+                        self.shape("held_add_call");
+                    }
+                }
+            }
+        }
+        if let Some(s) = self.pick_target(Ty::Str) {
+            let fresh = self.computed(slen);
+            self.emit(format!("{} get {fresh}", s.name));
+            self.set_cur(&s.name, slen);
+        }
+    }
+
     fn block<F: FnOnce(&mut Gen)>(&mut self, f: F) {
         self.scopes.push(Vec::new());
         self.block_depth += 1;
@@ -1681,6 +2515,13 @@ impl Gen {
         let fi = self.cur_fn.expect("inside a function");
         let params: Vec<String> =
             self.funcs[fi].params.iter().filter(|(n, t)| *t == ty && n != "d").map(|(n, _)| n.clone()).collect();
+        if ty == Ty::Str && self.rng.chance(1, 8) {
+            // the method result of a temporary is what is relocated
+            let (r, len) = self.temp_recv(1);
+            let e = fit(self.str_method_on(&fit(r, STR_CAP), len), STR_CAP);
+            self.shape("held_return");
+            return e.t;
+        }
         match self.rng.below(6) {
             0 | 1 if !params.is_empty() => params[self.rng.below(params.len() as u64) as usize].clone(),
             2 | 3 => match self.pick_var(ty) {
@@ -1698,7 +2539,8 @@ impl Gen {
         }
         let max_loop = if self.cur_fn.is_some() { 1 } else { 2 };
         let nest_ok = self.block_depth < 4;
-        match self.rng.below(40) {
+        match self.rng.below(41) {
+            40 => self.stmt_held(),
             0..=7 => {
                 let ty = self.pick_ty();
                 self.stmt_make(ty)
@@ -1797,6 +2639,33 @@ impl Gen {
         self.cur_fn = None;
     }
 
+    /// Fixed helper functions that store (a copy of) their argument: whatever they are given, a string
+    /// of exactly that length is promoted into the pool while the caller's evaluation is suspended.
+    fn emit_storers(&mut self) {
+        let s = self.pick_target(Ty::Str).map(|v| v.name);
+        let a = self.pick_target(Ty::ArrS).map(|v| v.name);
+        let p = vec![("ps0".to_string(), Ty::Str)];
+        if let Some(s) = s {
+            self.emit(format!("do hs(ps0) start\n{s} get ps0 add \"\"\nreturn \"!\"\nend"));
+            self.storers.push(self.funcs.len());
+            self.funcs.push(Func { name: "hs".into(), params: p.clone(), ret: Some(Ty::Str), recursive: false });
+        }
+        if let Some(a) = a {
+            self.emit(format!(
+                "do ha(ps0) start\nif to say ({a}.len() small pass {ARRS_MAX_PUSH_LEN}) start\n{a}.push(ps0 add \"\")\nend\n\
+                 if not so start\n{a}[0] get ps0 add \"\"\nend\nreturn \"+\"\nend"
+            ));
+            self.storers.push(self.funcs.len());
+            self.funcs.push(Func { name: "ha".into(), params: p.clone(), ret: Some(Ty::Str), recursive: false });
+        }
+        // a local of the callee: the slot is taken and given back before the caller goes on
+        self.emit("do hl(ps0) start\nmake l get ps0 add \"\"\nreturn l\nend".to_string());
+        self.storers.push(self.funcs.len());
+        self.funcs.push(Func { name: "hl".into(), params: p, ret: Some(Ty::Str), recursive: false });
+        // the helpers may store up to the capacity into the globals
+        self.widen_all();
+    }
+
     fn program(&mut self) -> String {
         self.boundary = self.rng.chance(1, 8);
         self.unicode = self.rng.chance(1, 4);
@@ -1812,6 +2681,10 @@ impl Gen {
             self.stmt_make(ty);
         }
         self.budget -= 3 + extra as i64;
+        if self.rng.chance(3, 4) {
+            self.emit_storers();
+        }
+        let base = self.funcs.len();
         // function signatures
         let nf = match self.rng.below(8) {
             0 => 0,
@@ -1843,7 +2716,7 @@ impl Gen {
             self.funcs.push(Func { name: format!("f{i}"), params, ret, recursive });
         }
         for i in 0..nf {
-            self.gen_function(i);
+            self.gen_function(base + i);
         }
         // main
         let mut first = true;
@@ -1880,6 +2753,27 @@ fn num_lit(n: i64) -> String {
 
 /// `n` random programs (source text) from `seed`.
 pub fn random_programs(seed: u64, n: u64) -> Vec<String> {
+    random_programs_with_shapes(seed, n).0
+}
+
+/// As `random_programs`, with the distribution of the temporary-receiver shapes: how often each was
+/// emitted, and `programs_with_temp_shape` = programs containing at least one.
+pub fn random_programs_with_shapes(seed: u64, n: u64) -> (Vec<String>, BTreeMap<&'static str, u64>) {
     let mut rng = Rng::new(seed ^ 0xC02);
-    (0..n).map(|_| Gen::new(rng.fork()).program()).collect()
+    let mut total: BTreeMap<&'static str, u64> = BTreeMap::new();
+    let mut out = Vec::new();
+    for _ in 0..n {
+        let mut g = Gen::new(rng.fork());
+        out.push(g.program());
+        if g.shapes.keys().any(|k| k.starts_with("recv_")) {
+            *total.entry("programs_with_temp_shape").or_insert(0) += 1;
+        }
+        if !g.storers.is_empty() {
+            *total.entry("programs_with_storers").or_insert(0) += 1;
+        }
+        for (k, v) in g.shapes {
+            *total.entry(k).or_insert(0) += v;
+        }
+    }
+    (out, total)
 }
